@@ -132,6 +132,28 @@ namespace vt
       run_strings< Root, fam5, tc_hid_uw, AA, MR, TE, LFCRLF >( sigma, maxlen );
    }
 
+   // parse tree (C12): each case is run traced (the contract derives the surviving derivation of the selected rules
+   // from it) and then through parse_tree::parse, which logs the tree it built
+   template< typename Root >
+   void cfgs_tree( const std::string& sigma, int maxlen )
+   {
+      g().fuel_cases = 0;
+      for_all_strings( sigma, maxlen, [ & ]( const std::string& s ) {
+         if( g().fuel_cases >= 3 )
+            return;
+         CaseCfg c;
+         c.extra = 1;  // selector by trait
+         run_memory_case< Root, pegtl::nothing, tc_hid, AA, MO, TE, LFCRLF >( c, s );
+         run_tree_case< Root, vsel, pegtl::nothing >( s );
+         c.extra = 2;  // every rule selected (store_all)
+         run_memory_case< Root, pegtl::nothing, tc_hid, AA, MO, TE, LFCRLF >( c, s );
+         run_tree_case< Root, vsel_all, pegtl::nothing >( s );
+         c.extra = 1;  // with throwing actions
+         run_memory_case< Root, fam3, tc_hid_uw, AA, MO, TE, LFCRLF >( c, s );
+         run_tree_case< Root, vsel, fam3 >( s );
+      } );
+   }
+
    // all five end-of-line policies, eager and lazy (C06)
    template< typename Root >
    void cfgs_eol( const std::string& sigma, int maxlen )
